@@ -78,6 +78,15 @@ func (p *pep440Extension) isDev() bool {
 func (p *versionParser) pep440Version() (*Version, error) {
 	var err error
 	p.Version.ext, err = p.Version.newExtension(p.Version.str)
+	if err == nil && !p.lex.allowInfinity {
+		// The extension accepts ∞ as a number wherever it stands; it is
+		// only meaningful in the span syntax.
+		for _, n := range p.Version.num {
+			if n == infinity {
+				return p.Version, fmt.Errorf("invalid version `%s`", p.Version.str)
+			}
+		}
+	}
 	return p.Version, err
 }
 
